@@ -14,6 +14,7 @@ import (
 	"github.com/formancehq/ledger/internal/engine/command"
 	"github.com/formancehq/ledger/internal/storage/driver"
 	"github.com/formancehq/ledger/internal/storage/ledgerstore"
+	"github.com/formancehq/ledger/internal/storage/sqlutils"
 	"github.com/formancehq/ledger/internal/storage/systemstore"
 	sharedapi "github.com/formancehq/stack/libs/go-libs/api"
 	"github.com/formancehq/stack/libs/go-libs/metadata"
@@ -122,6 +123,9 @@ func (b *fakeBackend) GetLedgerEngine(ctx context.Context, name string) (backend
 	return b.l, nil
 }
 func (b *fakeBackend) GetLedger(ctx context.Context, name string) (*systemstore.Ledger, error) {
+	if b.ledgerNotFound {
+		return nil, sqlutils.ErrNotFound
+	}
 	return &systemstore.Ledger{Name: name}, nil
 }
 func (b *fakeBackend) ListLedgers(ctx context.Context, q systemstore.ListLedgersQuery) (*sharedapi.Cursor[systemstore.Ledger], error) {
